@@ -43,6 +43,28 @@ RELEVANT = {
     "meter_connection.py": ["C17", "C18", "C13"],
 }
 
+# finer: (file, prefix of the qualified function name) -> checks, most specific first
+BY_FUNC = [
+    ("dlde.py", ("DataSetValue", "DataSet", "decode_p1", "_decode_parsed", "parse_p1", "_parse_p1", "_convert", "_get_"), ["C11", "C15", "C12", "C14"]),
+    ("dlde.py", ("Ident",), ["C04", "C11", "C05", "C14"]),
+    ("dlde.py", ("DataReadout",), ["C04", "C05", "C14", "C11", "C13"]),
+    ("dlde.py", ("ModeDReader", "_ReaderBuffer"), ["C05", "C16", "C19", "C14", "C13"]),
+    ("hdlc.py", ("HdlcFrameHeader", "HdlcFrame."), ["C01", "C02", "C06", "C13"]),
+    ("hdlc.py", ("HdlcFrameReader", "_ReaderBuffer"), ["C02", "C06", "C16", "C19", "C14", "C01"]),
+    ("meter_connection.py", ("SmartMeter", "MeterTransportProtocol", "ConnectionLost"), ["C13", "C14", "C17"]),
+    ("meter_connection.py", ("ExponentialBackOff", "BackOffStrategy"), ["C18", "C17"]),
+    ("meter_connection.py", ("ConnectionManager",), ["C17", "C18"]),
+    ("cosem.py", ("DateTime", "_to_datetime"), ["C10", "C07", "C08", "C09"]),
+]
+
+
+def relevant(m):
+    for f, prefixes, checks in BY_FUNC:
+        if m["file"] == f and any(m["func"].startswith(p) for p in prefixes):
+            return checks
+    return RELEVANT[m["file"]]
+
+
 CMP = {ast.Lt: ast.LtE, ast.LtE: ast.Lt, ast.Gt: ast.GtE, ast.GtE: ast.Gt, ast.Eq: ast.NotEq, ast.NotEq: ast.Eq,
        ast.Is: ast.IsNot, ast.IsNot: ast.Is, ast.In: ast.NotIn, ast.NotIn: ast.In}
 CMP2 = {ast.Lt: ast.Gt, ast.Gt: ast.Lt, ast.LtE: ast.GtE, ast.GtE: ast.LtE}
@@ -312,7 +334,7 @@ def evaluate(m, procs, tier="quick", known_tests_pass=False, depth=99):
             return res
         env = dict(os.environ, VERIF_REPO=wt, VERIF_OUT=out, VERIF_FAILFAST="1", VERIF_PROCS=str(procs), VERIF_TASK_LIMIT="900")
         res["checks"] = {}
-        for c in RELEVANT[m["file"]][:depth]:
+        for c in (m.get("checks") or relevant(m))[:depth]:
             t0 = time.time()
             try:
                 r = subprocess.run([os.path.join(VERIF, "check"), c, "--tier", tier], env=env, capture_output=True, text=True, timeout=2400)
@@ -403,7 +425,7 @@ def main():
         ms = {json.loads(l)["id"]: json.loads(l) for l in open(lst)}
         m = ms[sys.argv[2]]
         if arg.get("--checks"):
-            RELEVANT[m["file"]] = arg["--checks"].split(",")
+            m["checks"] = arg["--checks"].split(",")
         r = evaluate(m, int(arg.get("--procs", 16)))
         print(json.dumps(r, indent=1))
         return 0
